@@ -237,9 +237,9 @@ func runC09(w *World, r *Report) {
 	ruleNoMutateParams(w, r, "C09.errors-copied-on-extend", w.Fn("compose", "wrapGraphNodeError"), nil)
 	ruleNoMutateParams(w, r, "C09.errors-copied-on-extend", w.Fn("compose", "wrapStreamWrapperError"), nil)
 
-	r.Rule("C09.ctx-not-captured", "no per-call function literal of the bundled flows (one that has its own context.Context parameter) passes on a context captured from the constructor that built it", 1)
+	r.Rule("C09.ctx-not-captured", "no per-call function literal (one that has its own context.Context parameter) passes on a context captured from the function that built it; no function hands a callee a context derived from context.Background()/TODO()", 2)
 	{
-		uses, examined := capturedCtxUses(w.RepoFuncs("flow"))
+		uses, examined := capturedCtxUses(w.RepoFuncs("flow", "compose", "components", "utils", "callbacks", "schema", "internal"))
 		seen := map[string]bool{}
 		for _, u := range uses {
 			construct := fmt.Sprintf("%s uses captured context %s", w.fname(u.lit), u.fv.Name())
@@ -271,7 +271,22 @@ func runC09(w *World, r *Report) {
 			}
 			r.Fail("C09.ctx-not-captured", construct, u.call.Pos(), "the literal has a context parameter of its own but hands on the context its constructor was called with: every run shares that context at this point — values of the run's context (caller id, trace) are invisible, and a construction context that has been cancelled since (ctx, cancel := …; defer cancel() in an init function) is seen as cancelled by every run")
 		}
-		r.OK("C09.ctx-not-captured", fmt.Sprintf("%d per-call literals in flow/ examined", examined), token.NoPos, "captured contexts classified")
+		r.OK("C09.ctx-not-captured", fmt.Sprintf("%d per-call literals in the module examined", examined), token.NoPos, "captured contexts classified")
+		// … and nothing on a run path replaces the caller's context by a fresh one
+		hos := ctxHandOvers(w.RepoFuncs("flow", "compose", "components", "utils", "callbacks", "schema", "internal"))
+		nb := 0
+		for _, h := range hos {
+			if h.kind == "background" {
+				nb++
+				r.Fail("C09.ctx-not-captured", fmt.Sprintf("%s hands a fresh context to a callee", w.fname(origin(h.fn))), h.call.Pos(), "the callee runs on context.Background()/TODO() (or a context derived from it) instead of the caller's: the run's values, deadline and cancellation are cut off at this point")
+			}
+		}
+		if nb == 0 {
+			r.OK("C09.ctx-not-captured", fmt.Sprintf("%d context hand-overs in the module classified", len(hos)), token.NoPos, "every context passed on derives from a parameter, the enclosing call's context or a per-run object")
+		}
+		if len(hos) < 200 {
+			undecidedf("C09.ctx-not-captured: only %d context hand-overs found (floor 200)", len(hos))
+		}
 		if examined < 5 {
 			undecidedf("C09.ctx-not-captured: only %d per-call literals found in flow/", examined)
 		}
